@@ -4,7 +4,7 @@ SHIM = "golang.org/x/telemetry/internal/verifh/shim/"
 
 
 def rewrite_upload_imports(dst):
-    """In the scratch copy only: route "os" and "net/http" of internal/upload's
+    """In the scratch copy only: route "os", "net/http" and "sync" of internal/upload's
     non-test files through the yielding shims (import lines only; no other line
     changes)."""
     d = dst / "internal" / "upload"
@@ -14,6 +14,9 @@ def rewrite_upload_imports(dst):
         t = p.read_text()
         t2 = t.replace('\t"os"\n', '\tos "%svos"\n' % SHIM)
         t2 = t2.replace('\t"net/http"\n', '\thttp "%svhttp"\n' % SHIM)
+        # the parse cache's mutex: scheduler-aware (a thread that finds it held parks as Blocked instead of
+        # blocking the whole harness); taking a free mutex is no step
+        t2 = t2.replace('\t"sync"\n', '\tsync "%svsyncu"\n' % SHIM)
         if t2 != t:
             p.write_text(t2)
 
